@@ -193,9 +193,10 @@ impl MarketAdapter {
                             } else {
                                 replaced = Some(failing_msg());
                             }
+                            let raw: String = value.as_slice().iter().map(|b| format!("{:02x}", b)).collect();
                             json!({"kind": "fund_pool", "depositor": depositor,
                                    "coins": Value::Array(coins.iter().map(|(d, a)| json!([d, a])).collect()),
-                                   "wellformed": wellformed})
+                                   "wellformed": wellformed, "type_url": type_url, "raw": raw})
                         }
                         None => {
                             replaced = Some(failing_msg());
